@@ -1,6 +1,7 @@
 /- Helper lemmas: `strptime` on the output of `strftime` for zero-padded numeric fields. -/
 import XsdataModel.Conv.Strptime
 import XsdataModel.Proofs.IntL
+import XsdataModel.Proofs.DecimalL
 import XsdataModel.Proofs.Strip
 
 namespace Xs.Conv
@@ -124,6 +125,55 @@ theorem pyIntC_natStr (e : Env) (n : Nat) : pyIntC e (natStr n) = some (n : Int)
   obtain ⟨hd, hne, hv⟩ := natStr_spec n
   have := pyIntC_signed e [] [] .none (natStr n) (by intro c h; cases h) (by intro c h; cases h) hne hd
   simpa [Sign.str, Sign.neg, digitsNat, hv] using this
+
+/-- a zero-padded field of width `w`: `f"{v:0{w}d}"` for `v < 10^w` has exactly `w` ASCII digits
+that denote `v` -/
+theorem zpad_spec (v w : Nat) (hw : 1 ≤ w) (hv : v < 10 ^ w) :
+    (zpadInt (v : Int) w).length = w ∧ AllDigits (zpadInt (v : Int) w) ∧ digitsNat (zpadInt (v : Int) w) = v := by
+  have hlen := natStr_length_le w v hv hw
+  obtain ⟨hd, _, hval⟩ := natStr_spec v
+  have hz : zpadInt (v : Int) w = List.replicate (w - (natStr v).length) '0' ++ natStr v := by
+    unfold zpadInt zpad rjust
+    have : ¬ ((v : Int) < 0) := by omega
+    simp [this]
+  rw [hz]
+  refine ⟨by simp; omega, allDigits_append _ _ (allDigits_zeros _) hd, ?_⟩
+  rw [digitsNat_append, digitsNat_zeros]
+  simpa [digitsNat] using hval
+
+theorem pyIntC_zpad (e : Env) (v w : Nat) (hw : 1 ≤ w) (hv : v < 10 ^ w) :
+    pyIntC e (zpadInt (v : Int) w) = some (v : Int) := by
+  obtain ⟨hl, hd, hval⟩ := zpad_spec v w hw hv
+  have hne : zpadInt (v : Int) w ≠ [] := by
+    intro h; rw [h] at hl; simp at hl; omega
+  have := pyIntC_signed e [] [] .none _ (by intro c h; cases h) (by intro c h; cases h) hne hd
+  simpa [Sign.str, Sign.neg, hval] using this
+
+/-- `%f`: six digits are taken whole, whatever follows -/
+theorem firstMatch_frac (e : Env) (ds : Str) (hlen : ds.length = 6) (hdig : AllDigits ds)
+    (is : List FItem) (tail : Str) (f : TmF) (r : TmF × Str)
+    (h : firstMatch e is tail (f.set e 'f' ds) = some r) :
+    firstMatch e (.dir 'f' :: is) (ds ++ tail) f = some r := by
+  have htw : 6 ≤ ((ds ++ tail).takeWhile isAsciiDigit).length := by
+    have : (ds ++ tail).takeWhile isAsciiDigit = ds ++ tail.takeWhile isAsciiDigit := by
+      rw [List.takeWhile_append_of_pos]
+      intro c hc; exact hdig c hc
+    rw [this]; simp; omega
+  have hl : ∃ rest, dirLens e 'f' (ds ++ tail) = 6 :: rest := by
+    have hmin : min 6 ((ds ++ tail).takeWhile isAsciiDigit).length = 6 := by omega
+    refine ⟨countDown 5, ?_⟩
+    show (if 'f' = 'Y' then _ else if 'f' = 'f' then countDown (min 6 _) else _) = _
+    rw [if_neg (by decide), if_pos rfl, hmin]
+    rfl
+  obtain ⟨rest, hl⟩ := hl
+  unfold firstMatch matchItems
+  rw [hl]
+  apply head_flatMap_cons
+  have h1 : (ds ++ tail).drop 6 = tail := by rw [← hlen]; simp
+  have h2 : (ds ++ tail).take 6 = ds := by
+    rw [List.take_append_of_le_length (by omega)]; simp [← hlen]
+  rw [h1, h2]
+  exact h
 
 /-- four-digit years print as four digits -/
 theorem natStr_4 : ∀ a, a < 10 → ∀ b, b < 10 → ∀ c, c < 10 → ∀ d, d < 10 → 1 ≤ a →
